@@ -285,7 +285,8 @@ class FunctionVC:
         out['warnings_are_errors'] = decode(self.I.warn_flag, self.heap0, model)
         # scalar ghost bindings introduced by the driver (e.g. entry indices)
         out['bindings'] = {k: decode(v, self.heap0, model) for k, v in getattr(self, 'bindings', {}).items()
-                           if isinstance(v, (bool, int, z3.ExprRef)) and k not in self.sym_args}
+                           if k not in self.sym_args and k not in ('s', 'old', 'r', 'a', 'K')
+                           and isinstance(v, (bool, int, z3.ExprRef, SymObj, tuple, Choice, SymSeq))}
         # values the solver chose for callees replaced by a pure contract (replay stubs them with these)
         oracle = {}
         for qual, sym in getattr(self.I, 'cut_log', []):
